@@ -284,3 +284,62 @@ def run(ctx):
         ctx.case(key=('sweep', name), nontrivial=True)
         if len(set(reps)) != 1:
             ctx.violation('history:' + name, '%s: results differ between global generator states / call histories' % name, case={'call': name})
+    check_objects(ctx, ctx.tier == 'quick')
+
+
+def check_objects(ctx, quick):
+    """Objects with methods (ANOVA, order 2): a method without randomness returns the same result whatever was called on
+    the object before (other methods, the same method with other arguments, methods that draw random numbers)."""
+    n = [4, 4, 4, 4]
+    I = np.vstack([np.random.default_rng(1).integers(0, k, 600) for k in n]).T
+    y = 1. + I[:, 0] * I[:, 1] - 0.5 * I[:, 1] * I[:, 2] + 2. * I[:, 0] * I[:, 3] + I[:, 2]
+    J = I[:7].copy()
+
+    def obj():
+        return teneva.ANOVA(I.copy(), y.copy(), order=2, seed=7)
+    probes = {
+        'A(I)': lambda A: A(J.copy()),
+        'A[i]': lambda A: A[J[0].copy()],
+        'cores_2()': lambda A: A.cores_2(),
+        'cores_2(only_near=True)': lambda A: A.cores_2(only_near=True),
+        'cores_2(r=3)': lambda A: A.cores_2(r=3),
+        'cores(noise=0)': lambda A: [G + 0. for G in A.cores(r=3, noise=0.)],
+        'cores(noise=0, only_near=True)': lambda A: [G + 0. for G in A.cores(r=3, noise=0., only_near=True)],
+        'f1_arr': lambda A: A.f1_arr,
+        'f2_arr': lambda A: A.f2_arr,
+        'max()': lambda A: A.max(),
+    }
+    stochastic = {
+        'cores(r=2)': lambda A: A.cores(r=2),
+        'cores(r=4, only_near=True)': lambda A: A.cores(r=4, only_near=True),
+        'sample()': lambda A: A.sample(),
+    }
+    ref = {}
+    for name, p in list(probes.items()):
+        try:
+            ref[name] = fp(RG.quiet(p, obj()))
+        except Exception as ex:
+            ctx.notes.setdefault('object_probes_skipped', []).append('%s: %s' % (name, type(ex).__name__))
+            del probes[name]
+    for name, p in list(stochastic.items()):
+        try:
+            RG.quiet(p, obj())
+        except Exception as ex:
+            ctx.notes.setdefault('object_probes_skipped', []).append('%s: %s' % (name, type(ex).__name__))
+            del stochastic[name]
+    before = dict(probes)
+    before.update(stochastic)
+    for first, pf in before.items():
+        for second, ps in probes.items():
+            if first == second:
+                continue
+            ctx.case(key=('object-history', first, second), nontrivial=True)
+            A = obj()
+            try:
+                RG.quiet(pf, A)
+                got = fp(RG.quiet(ps, A))
+            except Exception as ex:
+                ctx.violation('history:ANOVA', 'ANOVA object: %s after %s raised %s: %s (each works on a fresh object)' % (second, first, type(ex).__name__, ex), case={'first': first, 'second': second})
+                continue
+            ctx.check(got == ref[second], 'history:ANOVA', 'ANOVA object (order 2): %s after %s differs from %s on a fresh object built from the same data and seed' % (second, first, second),
+                      case={'first': first, 'second': second})
